@@ -20,8 +20,8 @@ def rsc_inst(nh, j0, j1, tiers, witness=False, te=False):
 for (nh_, j0_, j1_) in ((0, 0, 0), (1, 1, 0), (2, 2, 1), (1, 1, 2), (2, 0, 0), (0, 2, 2)):
     HARNESSES.append(rsc_inst(nh_, j0_, j1_, ('quick', 'thorough') if (nh_, j0_, j1_) in ((1, 1, 0), (2, 0, 0)) else ('thorough',), witness=(nh_, j0_, j1_) == (1, 1, 0)))
 HARNESSES.append(rsc_inst(2, 0, 0, ('quick', 'thorough'), te=True))   # one of the handler's headers is itself a Transfer-Encoding header
-UNITS['rsi'] = dict(src='harness/w_c05_ins.cc', mode='sel', roots=['c05_ins_int', 'c05_ins_uint', 'c05_ins_short', 'c05_ins_long', 'c05_ins_cstr', 'c05_ins_u8'])
-for (n_, t_, rng_) in (('short', 3, 'every int16_t value'), ('int', 1, 'every int value'), ('uint', 2, 'every unsigned value'), ('long', 4, 'every int64_t value'), ('u8', 6, 'every uint8_t value'), ('cstr', 5, 'every C string of 0..3 bytes')):
+UNITS['rsi'] = dict(src='harness/w_c05_ins.cc', mode='sel', roots=['c05_ins_int', 'c05_ins_uint', 'c05_ins_short', 'c05_ins_long', 'c05_ins_cstr', 'c05_ins_u8', 'c05_ins_bool', 'c05_ins_arr'])
+for (n_, t_, rng_) in (('short', 3, 'every int16_t value'), ('int', 1, 'every int value'), ('uint', 2, 'every unsigned value'), ('long', 4, 'every int64_t value'), ('u8', 6, 'every uint8_t value'), ('cstr', 5, 'every C string of 0..3 bytes'), ('bool', 7, 'both truth values'), ('arr', 8, 'every char[4] holding 3 non-NUL characters')):
     HARNESSES.append(dict(name='stream_insert_' + n_, units=['rsi'], file='c05_insert.c', defs={'TY': t_}, unwind=22, hunwind=24, timeout=600, fs=64, witness=n_ in ('int', 'cstr'),
         bound='one insertion, %s, EVERY maximum response size 0..40' % rng_,
         desc="(b3) ResponseStream << value (template of http.h instantiated by harness/w_c05_ins.cc): one chunk whose size line announces exactly the number of bytes the value is written with, the value in decimal, nothing for an empty text, a throw iff a piece did not fit"))
